@@ -280,6 +280,14 @@ class MuChannel:
         """
         num_rx, num_tx = self._su_siso_channels.shape
 
+        # Validate the whole matrix before changing anything
+        pathloss_array = np.asarray(pathloss_matrix)
+        if pathloss_array.shape != (num_rx, num_tx):
+            raise ValueError("pathloss_matrix must have dimension "
+                             "{0} x {1}".format(num_rx, num_tx))
+        if np.any(pathloss_array < 0) or np.any(pathloss_array > 1):
+            raise ValueError("Pathloss must be between 0 and 1")
+
         # Set in an attribute for easy retriaval later
         self._pathloss_matrix = np.copy(pathloss_matrix)
 
